@@ -52,6 +52,8 @@ SHAPES = [
     "with c as (select a from t1 union select (a, b) = (1, 2) from t2 limit 2) select * from c",
     "insert into t (a) select cast(a as foo) from t1 union select a from t2 limit 1", "select a from t1 union select a from t2 order by a limit 5",
     "select a from t1 except select a from t2 order by a desc limit 2 offset 1",
+    "select * from t where " + " and ".join(f"a{i} = {i}" for i in range(300)), "select " + " + ".join(["x"] * 300) + " from t",
+    "select * from t where " + " or ".join(f"a{i} > {i}" for i in range(250)),
     "select native_query from int1 (select 1)", "select * from int1 (select * from t where a = 'x')",
 ]
 
@@ -183,7 +185,7 @@ def run(tier, seed, replay=None):
         for d in dialects:
             outs = []
             for fb in (False, True):
-                t = copy.deepcopy(tree0)
+                t = parse_sql(sql, 'mindsdb')       # a fresh tree per call (deepcopy itself fails on very deep trees)
                 try:
                     r = SqlalchemyRender(d)
                 except Exception as e:
@@ -201,7 +203,7 @@ def run(tier, seed, replay=None):
                 if after != before and (sql, 'mutation') not in mutations:
                     mutations[(sql, 'mutation')] = (d, before[1], after[1])
                 # get_exec_params with parameters
-                t2 = copy.deepcopy(tree0)
+                t2 = parse_sql(sql, 'mindsdb')
                 try:
                     r.get_exec_params(t2, with_failback=fb, with_params=True)
                 except Exception as e:
@@ -210,7 +212,7 @@ def run(tier, seed, replay=None):
             # the translation + compilation themselves, as get_exec_params calls them
             from mindsdb_sql.parser import ast as mast
             from mindsdb_sql.render import sqlalchemy_render as sr
-            t3 = copy.deepcopy(tree0)
+            t3 = parse_sql(sql, 'mindsdb')
             raw_exc = None
             try:
                 r3 = SqlalchemyRender(d)
